@@ -7,6 +7,7 @@
 import Driver.Fmt
 import Driver.Alg
 import Driver.Export
+import Driver.Split
 
 open Lean Driver
 
@@ -18,6 +19,7 @@ def dispatch (op : String) (inp out : Json) : Json :=
   | "repeat" => runRepeat inp out
   | "exportrt" => runExportRT inp out
   | "import" => runImport inp out
+  | "split" => runSplit inp out
   | _ => Json.mkObj [("same", Json.bool false), ("diff", Json.str s!"unknown op {op}"), ("fails", Json.arr #[])]
 
 partial def loop (h : IO.FS.Stream) (o : IO.FS.Stream) : IO Unit := do
